@@ -124,6 +124,34 @@ def struct_compare(run, schema_m, schema_s, flat):
     return d2
 
 
+def align_parser_order(run, flat, schema_m, backend):
+    """The order in which several parser methods of one component (two
+    @dataframe_parser methods, two @parser methods on one column; own or
+    inherited) are applied is not documented for models, and parsers need not
+    commute.  Once the structures are known to agree modulo that order, the
+    description takes the model's order, so that the verdict comparison judges
+    everything but the order."""
+    if backend != "pandas":
+        return
+
+    def reorder(items, parsers):
+        pos = {}
+        for k, p in enumerate(parsers):
+            pos.setdefault(p.name, k)
+        if len(items) < 2 or any(it["name"] not in pos for it in items):
+            return items
+        out = sorted(items, key=lambda it: pos[it["name"]])
+        if [it["name"] for it in out] != [it["name"] for it in items]:
+            run.count("undecided:parser-order-inside-component")
+        return out
+
+    flat["df_parsers"] = reorder(flat["df_parsers"], schema_m.parsers or [])
+    for col in flat["columns"]:
+        cm = schema_m.columns.get(col["name"])
+        if cm is not None:
+            col["parsers"] = reorder(col["parsers"], cm.parsers or [])
+
+
 # ------------------------------------------------ known-defect expectations
 MECH_FIELDSET = "model-check-fieldinfo-designations-collapse-in-set"
 MECH_REGEX_NONSTR = "model-regex-check-on-non-str-field-name"
@@ -471,9 +499,13 @@ def one_case(run, rng, backend=None, prog=None):
                 pass
         if d is None:
             run.count("struct_equal")
+            align_parser_order(run, flats[i], recorded[i][0], backend)
             continue
         mechs, s2 = explain(run, prog, i, flat, recorded[i][0], backend)
         struct_mech[i] = (mechs, s2) if mechs else "unknown"
+        if mechs:
+            align_parser_order(run, s2, recorded[i][0], backend)
+            align_parser_order(run, flats[i], recorded[i][0], backend)
         for m in (mechs or [None]):
             run.violation("to_schema-differs-from-object-schema",
                           {**witness0, "class": i, "flat": _brief_flat(flat),
@@ -642,4 +674,22 @@ def replay(path):
     for v in r.violations:
         print(v["kind"], v["mechanism"], "class", v["witness"].get("class"),
               v["witness"].get("diff") or "")
-    return 1 if r.violations else 0
+    rc = 1 if r.violations else 0
+    ww = w["witness"]
+    if "table" in ww and "lazy" in ww and not r.violations:
+        # the frames above are fresh ones; also run the recorded frame
+        i, backend = ww["class"], prog["backend"]
+        h = P.build_models(prog, ann_variant=ww.get("ann_variant", 0))
+        flat = P.resolve(prog, i)
+        sm = h[i].to_schema()
+        if not flat["name_decided"]:
+            flat["name"] = sm.name
+        if struct_compare(r, sm, P.build_schema(flat, backend), flat) is None:
+            align_parser_order(r, flat, sm, backend)
+        out = compare_validate(r, h[i], flat, ww["table"], backend,
+                               ww["lazy"], "replay")
+        if out:
+            print("verdict-differs on the recorded frame", out)
+            rc = 1
+        _cleanup(h)
+    return rc
